@@ -62,6 +62,8 @@ var c18Scenarios = []c18Scenario{
 	{name: "tie-limit-3", n: 3, ties: true, query: `{}`, params: logqlengine.EvalParams{Start: 0, End: otelstorage.Timestamp(10 * c18sec), Step: time.Second, Limit: 2}},
 	{name: "tie-distinct-3", n: 3, ties: true, same: true, query: `{} | distinct msg`, params: c18Log()},
 	{name: "tie-first-3", n: 3, ties: true, query: `first_over_time({} | label_format v="{{ __line__ | trimPrefix \"m\" | trunc 1 }}" | unwrap v [10s]) by (container_state)`, params: logqlengine.EvalParams{Start: otelstorage.Timestamp(5 * c18sec), End: otelstorage.Timestamp(5 * c18sec), Limit: -1}},
+	{name: "log-samemsg-2", n: 2, same: true, query: `{}`, params: c18Log()},
+	{name: "log-dropmsg-3", n: 3, query: `{} | drop msg, container_id`, params: c18Log()},
 	{name: "count-samemsg-2", n: 2, same: true, query: `count_over_time({}[4s])`, params: c18Range()},
 	{name: "max-samemsg-2", n: 2, same: true, query: `max(count_over_time({}[4s])) by (container, msg)`, params: c18Range()},
 }
